@@ -356,6 +356,10 @@ class CallMixin:
 
     def apply_contract(self, st, ctx, c, bound, k, node):
         line = getattr(node, "lineno", None)
+        if c.yields is not None and any(m.split(":", 1)[0] in ("list", "any", "all", "obj", "map") for m in c.modifies):
+            # a generator's contract describes the state after exhaustion and its effects are applied where the iterator is
+            # created; that is only faithful for generators that leave everything but bookkeeping fields alone
+            raise Unsupported("call of a generator that mutates lists/objects (%s): its effects interleave with the consumer (line %s)" % (c.qual, line))
         ci = self.select_case(c, bound)
         if ci is None:
             # narrow a reference of several possible classes and retry (infeasible classes are pruned by the path condition)
